@@ -353,7 +353,7 @@ package vegeta
 
 //@ func (*Attacker).Attack$1
 //@   property C02 C03 C04
-//@   requires [captured-non-nil] a != nil && atk != nil && p != nil && wg != nil
+//@   requires [captured-non-nil] a != nil && atk != nil && p != nil
 //@   requires [started-in-the-past] atk.began <= clock(0)
 //@   requires [initial-workers-clamped] workers <= a.maxWorkers
 //@   requires [channels-open] ticks != nil && results != nil && !closed(ticks) && !closed(results) && ref(ticks) != ref(results)
@@ -399,3 +399,109 @@ package vegeta
 //@     invariant lastElapsed <= clock(0) - atk.began && atk.began <= clock(0) && clock(0) >= old(clock(0))
 //@     invariant a == old(a) && atk == old(atk) && p == old(p) && du == old(du) && atk.began == old(atk.began)
 //@     invariant a.stopch == old(a.stopch) && ticks == old(ticks) && results == old(results)
+
+// ---------------------------------------------------------------------------------- C05 C06 (and C02)
+// hit: one request/response exchange. Monitor on atk.seqmu: (seq, timestamp) are issued in ONE critical
+// section, so their orders agree (lastTs(atk) = timestamp issued by the previous section; the monitor
+// invariant lastTs <= clock is assumed at Lock and re-established at Unlock).
+//@ ghostfield lastTs int
+
+//@ func (*Target).Request
+//@   trusted
+//@   requires t != nil
+//@   ensures (result1 == nil) == (result0 != nil)
+//@   ensures result0 != nil ==> fresh(result0) && result0.Method == t.Method && req_url(result0) == t.URL && result0.Header != nil
+//@              && fresh(result0.Header) && result0.ContentLength >= -1 && result0.TransferEncoding == nil
+
+//@ func (*Attacker).hit
+//@   property C02 C05 C06
+//@   guarded attack.seq by &atk.seqmu
+//@   requires [non-nil] a != nil && atk != nil && tr != nil
+//@   requires [started-in-the-past] atk.began <= clock(0) && atk.began >= 0
+//@   requires [lock-free-on-entry] !held(&atk.seqmu)
+//@   requires [stop-channel] a.stopch != nil && (closed(a.stopch) <==> done(&a.stopOnce))
+//@   modifies atk.seq
+//@   ghost seqAtLock int
+//@   ghost lastTsAtLock int
+//@   ghost sections int
+//@   ghost targeterFailed bool
+//@   ghost stopped bool
+//@   ghost didDo bool
+//@   ghost doOK bool
+//@   ghost t0 int
+//@   ghost t1 int
+//@   ghost body int
+//@   ghost status int
+//@   ghost seqHeader bool
+//@   ghost nameHeader bool
+//@   at call Lock: havoc atk.seq ; havoc lastTs(atk) ; assume [monitor-invariant] lastTs(atk) <= clock(0) ;
+//@        assume [fewer-than-2^64-hits] atk.seq < MaxUint64 ; ghost seqAtLock = atk.seq ; ghost lastTsAtLock = lastTs(atk)
+//@   at call time.Since x2: assume [attack-shorter-than-292-years] clock(0) - atk.began <= MaxInt64 && (res.Timestamp >= atk.began ==> clock(0) - res.Timestamp <= MaxInt64)
+//@   before call Unlock: assert [C05-seq-and-timestamp-from-one-section] sections == 0 && res.Seq == seqAtLock && atk.seq == seqAtLock + 1 ;
+//@        assert [C05-timestamp-not-before-previous-hit] res.Timestamp >= lastTsAtLock ;
+//@        assert [C05-monitor-invariant-reestablished] res.Timestamp <= clock(0) ;
+//@        ghost sections = sections + 1
+//@   at call tr: ghost targeterFailed = (result != nil)
+//@   at call Stop: ghost stopped = true
+//@   at call Set: assert [C06-attack-name-header] arg1 == "X-Vegeta-Attack" ==> arg2 == atk.name && atk.name != "" ;
+//@        assert [C06-seq-header-matches-result] arg1 == "X-Vegeta-Seq" ==> arg2 == fmtint(res.Seq, 10) ;
+//@        ghost seqHeader = seqHeader || arg1 == "X-Vegeta-Seq" ; ghost nameHeader = nameHeader || arg1 == "X-Vegeta-Attack"
+//@   before call Do: assert [C06-headers-injected-before-send] seqHeader && (atk.name != "" ==> nameHeader) ;
+//@        assert [C06-request-is-the-targets] arg1.Method == tgt.Method && req_url(arg1) == tgt.URL ;
+//@        assert [C05-timestamp-before-transport] res.Timestamp <= clock(0) ;
+//@        ghost t0 = clock(0)
+//@   at call Do: ghost didDo = true ; ghost doOK = (result1 == nil) ; ghost t1 = clock(0) ; ghost body = ref(result0.Body) ; ghost status = result0.StatusCode
+//@   ensures [C02-always-a-result] result != nil
+//@   ensures [C02-targeter-error-stops-attack] targeterFailed ==> stopped && result.Error != ""
+//@   ensures [C05-one-section] sections == 1
+//@   ensures [C05-timestamp-after-start] result.Timestamp >= atk.began
+//@   ensures [C05-latency-non-negative] result.Latency >= 0 && result.Timestamp + result.Latency <= clock(0)
+//@   ensures [C05-latency-covers-transport] didDo ==> result.Latency >= t1 - t0
+//@   ensures [C06-method-and-url] !targeterFailed ==> result.Method == tgt.Method && result.URL == tgt.URL
+//@   ensures [C06-attack-name-and-seq] result.Attack == atk.name && result.Seq == seqAtLock
+//@   ensures [C06-bytes-in-is-captured-length] result.BytesIn == len(result.Body)
+//@   ensures [C06-failed-exchange-has-error-and-no-success-code] result.Error == "" ==> didDo && doOK && 200 <= result.Code && result.Code < 400
+//@   ensures [C06-status-error-mapping] didDo && doOK && result.Code != 0 ==> result.Code == status && (result.Error == "" <==> (200 <= result.Code && result.Code < 400))
+//@   ensures [C06-body-closed-and-drained] didDo && doOK ==> bclosed(body) && (remaining(body) == 0 || rfault(body))
+//@   ensures [C06-capture-limit] didDo && doOK && a.maxBody >= 0 ==> len(result.Body) <= a.maxBody
+//@   ensures [lock-released] !held(&atk.seqmu)
+
+// The worker: one result per tick, Done exactly once.
+//@ func (*Attacker).attack
+//@   property C02 C03
+//@   requires [non-nil] a != nil && atk != nil && workers != nil && ticks != nil && results != nil
+//@   ghost taken int
+//@   ghost sent int
+//@   ghost hits int
+//@   ghost lastHit int
+//@   ghost dones int
+//@   at recv ticks: ghost taken = taken + (result1 ? 1 : 0)
+//@   before call hit: assert [C02-hit-only-for-a-received-tick] taken == sent + 1 && hits == sent
+//@   at call hit: ghost hits = hits + 1 ; ghost lastHit = ref(result)
+//@   at send results: assert [C02-delivers-exactly-that-hit] hits == sent + 1 && ref(arg0) == lastHit && arg0 != nil ; ghost sent = sent + 1
+//@   at call Done: assert [C02-done-once-at-exit] dones == 0 && taken == sent ; ghost dones = dones + 1
+//@   ensures [C02-one-result-per-tick] taken == sent && hits == sent && dones == 1
+//@   loop 1
+//@     invariant taken == sent && hits == sent && dones == 0
+//@     invariant a == old(a) && atk == old(atk) && workers == old(workers) && results == old(results) && ticks == old(ticks)
+
+//@ func (*Attacker).Attack
+//@   property C02 C03
+//@   requires [non-nil] a != nil && a.stopch != nil && p != nil
+//@   requires [stop-flags-consistent] closed(a.stopch) <==> done(&a.stopOnce)
+//@   assume   [clock-range] clock(0) >= 0
+//@   ghost spawned int
+//@   ghost wgAdded bool
+//@   ghost chans int
+//@   ghost driver int
+//@   at makechan x2: assert [C03-unbuffered-channels] arg0 == 0 ; ghost chans = chans + 1
+//@   at call Add: ghost wgAdded = true
+//@   at go attack: assert [C02-worker-registered-before-start] wgAdded && driver == 0 ; ghost spawned = spawned + 1 ; ghost wgAdded = false
+//@   at go Attack$1: assert [C03-initial-workers-clamped] spawned == min(a.workers, a.maxWorkers) ; ghost driver = driver + 1
+//@   ensures [C03-initial-workers] spawned == min(a.workers, a.maxWorkers) && driver == 1 && chans == 2
+//@   ensures [results-channel-returned] result != nil
+//@   loop 1
+//@     invariant i <= workers && spawned == i && !wgAdded && driver == 0 && chans == 2 && workers == min(a.workers, a.maxWorkers)
+//@     invariant a == old(a) && a.stopch == old(a.stopch) && ticks != nil && results != nil && !closed(ticks) && !closed(results) && ref(ticks) != ref(results)
+//@     invariant ref(a.stopch) != ref(ticks) && ref(a.stopch) != ref(results) && atk != nil && atk.began <= clock(0) && atk.began >= 0
+//@     decreases workers - i
